@@ -29,6 +29,9 @@ inductive LookupEdit where
   non-membership proof of the label with the same 32 bytes and length `n` (really absent from the tree when
   `n ≠ 256`); existence / marker proofs with the length field of their label rewritten -/
   | freshLen (n : Nat) | existLen (n : Nat) | markerLen (n : Nat)
+  /-- material taken from ANOTHER EPOCH's tree: the honest lookup proof the directory served for this label at epoch
+  `ep` — whole (`part = 0`), or only its existence (1), marker (2) or freshness (3) part spliced into the current proof -/
+  | old (part : Nat) (ep : Nat)
 
 def parseLookupEdit? (tok : String) : Option LookupEdit :=
   match tok.splitOn ":" with
@@ -57,6 +60,10 @@ def parseLookupEdit? (tok : String) : Option LookupEdit :=
   | ["fresh.len", n] => n.toNat?.map .freshLen
   | ["exist.len", n] => n.toNat?.map .existLen
   | ["marker.len", n] => n.toNat?.map .markerLen
+  | ["old.full", e] => e.toNat?.map (.old 0)
+  | ["old.exist", e] => e.toNat?.map (.old 1)
+  | ["old.marker", e] => e.toNat?.map (.old 2)
+  | ["old.fresh", e] => e.toNat?.map (.old 3)
   | _ => none
 
 def stateOfVersion (d : Dir) (u : Bytes) (v : Nat) : Option ValueState :=
@@ -98,7 +105,18 @@ def absentWithLen (c : Cfg) (d : Dir) (label : NodeLabel) (n : Nat) : Except DEr
   let some azks := d.azks | throw .notFound
   Dir.liftT (d.nodes.nonMembershipProof c azks ⟨label.val, n⟩)
 
-def applyLookup (c : Cfg) (d : Dir) (u : Bytes) (p : LookupProof) : LookupEdit → Except DErr LookupProof
+def applyLookup (c : Cfg) (d : Dir) (u : Bytes) (p : LookupProof) (snaps : List (Nat × Dir) := []) :
+    LookupEdit → Except DErr LookupProof
+  | .old part ep =>
+    match snaps.find? (fun x => x.1 = ep) with
+    | none => .error .notFound
+    | some (_, dOld) => do
+      let (q, _, _) ← dOld.lookup c u
+      match part with
+      | 0 => return q
+      | 1 => return { p with existence := q.existence, existenceVrf := q.existenceVrf }
+      | 2 => return { p with marker := q.marker, markerVrf := q.markerVrf }
+      | _ => return { p with freshness := q.freshness, freshnessVrf := q.freshnessVrf }
   | .version v => match stateOfVersion d u v with
     | some st => lookupFor c d u st
     | none => .error .notFound
